@@ -475,8 +475,10 @@ func (t *TransportLayerCC) Unmarshal(rawPacket []byte) error { //nolint:gocognit
 	t.FbPktCount = rawPacket[headerLength+fbPktCountOffset]
 
 	packetStatusPos := uint16(headerLength + packetChunkOffset)
-	var processedPacketNum uint16
-	for processedPacketNum < t.PacketStatusCount {
+	// counted in int: a status vector chunk can overshoot PacketStatusCount by up to 13,
+	// which must end the loop rather than wrap a 16-bit counter
+	var processedPacketNum int
+	for processedPacketNum < int(t.PacketStatusCount) {
 		if packetStatusPos+packetStatusChunkLength > totalLength {
 			return errPacketTooShort
 		}
@@ -491,14 +493,14 @@ func (t *TransportLayerCC) Unmarshal(rawPacket []byte) error { //nolint:gocognit
 				return err
 			}
 
-			packetNumberToProcess := localMin(t.PacketStatusCount-processedPacketNum, packetStatus.RunLength)
+			packetNumberToProcess := localMin(t.PacketStatusCount-uint16(processedPacketNum), packetStatus.RunLength)
 			if packetStatus.PacketStatusSymbol == TypeTCCPacketReceivedSmallDelta ||
 				packetStatus.PacketStatusSymbol == TypeTCCPacketReceivedLargeDelta {
 				for j := uint16(0); j < packetNumberToProcess; j++ {
 					t.RecvDeltas = append(t.RecvDeltas, &RecvDelta{Type: packetStatus.PacketStatusSymbol})
 				}
 			}
-			processedPacketNum += packetNumberToProcess
+			processedPacketNum += int(packetNumberToProcess)
 		case TypeTCCStatusVectorChunk:
 			packetStatus := &StatusVectorChunk{Type: typ}
 			iPacketStatus = packetStatus
@@ -520,7 +522,7 @@ func (t *TransportLayerCC) Unmarshal(rawPacket []byte) error { //nolint:gocognit
 					}
 				}
 			}
-			processedPacketNum += uint16(len(packetStatus.SymbolList))
+			processedPacketNum += len(packetStatus.SymbolList)
 		}
 		packetStatusPos += packetStatusChunkLength
 		t.PacketChunks = append(t.PacketChunks, iPacketStatus)
